@@ -137,6 +137,7 @@ def strat_routes(tier):
         'seed': U.seeds,
         # decimal exponent of an overall amplitude factor (the transform is linear: a field of order 1e-12 or 1e+30 behaves like one of order 1)
         'mag': st.sampled_from([0, 0, 0, 0, -9, -12, 9, -30, 30, -100, 100]),
+        'fftbackend': U.fft_backends,       # the FFT module behind the backend shim
     })
 
 
@@ -156,6 +157,14 @@ def _cast(f, dtype):
 
 def check_routes(case, ctx):
     """one random transform through mdft and czt (and optionally the propagation function / Wavefront wrappers) vs the textbook DFT."""
+    be = case.get('fftbackend', 'scipy')
+    if be != 'scipy':
+        ctx.label('fft-backend:' + be)
+    with U.fft_backend(be):
+        _check_routes(case, ctx)
+
+
+def _check_routes(case, ctx):
     from prysm.fttools import mdft, czt
     from prysm import propagation as P
     _reset()
@@ -315,6 +324,13 @@ def strat_hist_op(tier):
                      st.fixed_dictionaries({'op': st.just('clear'), 'which': st.sampled_from(['mdft', 'czt', 'both'])}),
                      st.fixed_dictionaries({'op': st.just('precision'), 'bits': st.sampled_from([32, 64])}),
                      st.fixed_dictionaries({'op': st.just('repeat'), 'idx': st.integers(0, 30)}),
+                     # an earlier call again with another shift (everything else equal): bases / kernels shared between shifts of one geometry
+                     st.fixed_dictionaries({'op': st.just('reshift'), 'idx': st.integers(0, 30), 'seed': st.integers(0, 50),
+                                            'shift': st.sampled_from([[0, 0], [0, 0], [1, 0], [0, 1], [-1, -1], [-2, -2], [-1, 0], [-2, 0], [0.5, -1.5], [2.25, 3]])}),
+                     # a burst of many distinct small geometries (bounded caches, eviction, counters); nothing but termination is asserted for the burst
+                     # itself, later operations re-visit earlier geometries
+                     st.fixed_dictionaries({'op': st.just('burst'), 'n': st.sampled_from([20, 40, 70, 300]), 'fn': st.sampled_from(['dft2', 'idft2', 'czt2', 'iczt2']),
+                                            'revisit': st.booleans()}),
                      # a call that fails (wrong dimensionality / a Q that is not a number / no output size) and is caught by the caller: whatever it left
                      # behind in the executor must not change later answers (nothing is asserted about the failing call itself)
                      st.fixed_dictionaries({'op': st.just('failed-call'), 'fn': st.sampled_from(['dft2', 'idft2', 'czt2', 'iczt2']),
@@ -342,6 +358,7 @@ class ExecutorHistory:
         self.calls = []
         self.seen = {}     # key -> set of (prec, epoch) it was used under
         self.epoch = 0
+        self.burst = 0
         self.buffers = {}  # (shape, dtype) -> the caller's array object, refilled in place for every later call of that shape
         self.kept = []     # (result object, copy of it at the time, description): results handed out earlier stay what they were
 
@@ -377,6 +394,27 @@ class ExecutorHistory:
             except Exception:      # noqa - the caller of an invalid request catches whatever comes
                 ctx.label('op:failed-call:raised')
             return
+        if op['op'] == 'burst':
+            live = self.ft.mdft if op['fn'] in ('dft2', 'idft2') else self.ft.czt
+            g = np.ones((2, 3), dtype=complex)
+            for i in range(op['n']):
+                ctx.call(getattr(live, op['fn']), g, 1 + (self.burst + i) / 64, (3, 2))       # a new Q each time: a new geometry
+                if op['revisit'] and self.calls and i % 4 == 3:
+                    c0 = self.calls[0]
+                    lv = self.ft.mdft if c0['fn'] in ('dft2', 'idft2') else self.ft.czt
+                    ctx.call(getattr(lv, c0['fn']), _cast(U.field(c0['seed'], c0['geo']['shape'], 'complex'), c0['dtype']), U.tup(c0['geo']['Q']), U.tup(c0['geo']['out']), tuple(c0['geo']['shift']))
+            self.burst += op['n']
+            ctx.label('op:burst:%d%s' % (op['n'], ':revisiting' if op['revisit'] else ''))
+            ctx.nt(True)
+            return
+        if op['op'] == 'reshift':
+            if not self.calls:
+                ctx.label('op:reshift-noop')
+                return
+            base = self.calls[op['idx'] % len(self.calls)]
+            op = {'op': 'call', 'fn': base['fn'], 'geo': dict(base['geo'], shift=list(op['shift'])), 'dtype': base['dtype'], 'seed': op['seed']}
+            ctx.label('op:reshift:' + ('same-shift' if list(op['geo']['shift']) == list(base['geo']['shift']) else 'other-shift'))
+            ctx.nt(True)
         if op['op'] == 'repeat':
             if not self.calls:
                 ctx.label('op:repeat-noop')
